@@ -575,6 +575,26 @@ class FPool:
         return False
 
 
+inline_pools = False    # set by the harness around code under test that runs outside the kernel (precompute)
+
+
+class InlinePool:
+    """Order-preserving map evaluated in the calling thread (scheduler.graph.precompute maps a pure function over disjoint
+    components): a loop that never ends stays interruptible by the wall-clock alarm instead of hiding in a pool thread."""
+
+    def map(self, fn, *iterables):
+        return [fn(*args) for args in zip(*iterables)]
+
+    def shutdown(self, wait=True, cancel_futures=False):
+        pass
+
+    def __enter__(self):
+        return self
+
+    def __exit__(self, *a):
+        return False
+
+
 def fwait(futs, timeout=None, return_when="ALL_COMPLETED"):
     futs = list(futs)
     if return_when == "FIRST_COMPLETED":
@@ -793,7 +813,11 @@ def install():
 
     class TpeDisp:
         def __new__(cls, *a, **kw):
-            return FPool(*a, **kw) if insim() else real_tpe(*a, **kw)
+            if insim():
+                return FPool(*a, **kw)
+            if inline_pools:
+                return InlinePool()
+            return real_tpe(*a, **kw)
     cf.ThreadPoolExecutor = TpeDisp
     cf.wait = disp(cf.wait, fwait)
 
